@@ -234,17 +234,20 @@ def stepLine (d : DState) (op obs : String) : DState × String :=
     match (if h == "-" then some [] else LA.parseHex h) with
     | none => (d, "bad-op")
     | some body =>
-      match LA.Pax.parseRecords body.length body with
+      -- the harness reads from memory: the whole body is buffered
+      match LA.Pax.parseRecords body.length body body.length with
       | none => (d, "st=warn")          -- "Ignoring malformed pax attributes"
       | some kvs =>
         -- SCHILY.xattr.<name> (1..128 bytes) becomes an extended attribute; other keys are unknown to the reader
         let pfx : List Nat := [83, 67, 72, 73, 76, 89, 46, 120, 97, 116, 116, 114, 46]
+        -- the key is handed on as a C string (`archive_strncpy`): it ends at the first NUL
         let xs := kvs.filterMap fun kv =>
-          let name := kv.1.drop 13
-          if kv.1.take 13 = pfx ∧ 1 ≤ name.length ∧ name.length ≤ 128 then some (hexOrDash (cstr name) ++ ":" ++ hexOrDash kv.2) else none      -- the name is kept as a C string
+          let key := cstr kv.1
+          let name := key.drop 13
+          if key.take 13 = pfx ∧ 1 ≤ name.length ∧ name.length ≤ 128 then some (hexOrDash name ++ ":" ++ hexOrDash kv.2) else none
         let xs := xs.mergeSort (fun a b => decide (a ≤ b))
         -- a SCHILY.xattr name of more than 128 bytes is skipped with a warning ("Unable to parse xattr")
-        if kvs.any (fun kv => kv.1.take 13 == pfx && decide ((kv.1.drop 13).length > 128)) then (d, "st=warn") else
+        if kvs.any (fun kv => (cstr kv.1).take 13 == pfx && decide (((cstr kv.1).drop 13).length > 128)) then (d, "st=warn") else
         (d, s!"st=ok n={xs.length} x={if xs.isEmpty then "-" else String.intercalate "," xs}")
   | "open" :: ws =>
     let name := (kv ws "f").getD ""
